@@ -358,6 +358,57 @@ pub fn run(name: &str) -> Option<bool> {
                 Outcome::Panic(_)
             )
         }
+        // C02: a letter that is a flag in one command and an argument in a sibling command: the
+        // tokenizer knows letters for the whole program, `one -ab` is reported ambiguous while
+        // `one -a -b` works
+        "cluster_letter_declared_differently_in_sibling_command" => {
+            let cmd = |id: Id, name: &str, fields: Vec<Spec>| {
+                Spec::Cmd(Box::new(CmdSpec {
+                    id,
+                    names: vec![name.to_string()],
+                    shorts: vec![],
+                    help: None,
+                    adjacent: false,
+                    opts: OptSpec::plain(Spec::Seq(fields)),
+                }))
+            };
+            let o = OptSpec::plain(Spec::Seq(vec![Spec::Alt(vec![
+                cmd(
+                    1,
+                    "one",
+                    vec![
+                        item(2, Names::short('a'), Leaf::Switch),
+                        item(3, Names::short('b'), Leaf::Switch),
+                    ],
+                ),
+                cmd(4, "two", vec![arg(5, Names::short('a'), Ty::Str)]),
+            ])]));
+            let p = build_options(&o);
+            let split = crate::outcome::run(&p, &bytes(&["one", "-a", "-b"]));
+            let cluster = crate::outcome::run(&p, &bytes(&["one", "-ab"]));
+            split.is_value() && split != cluster
+        }
+        // C04: `construct!(pure(..), flag).adjacent()` passes check_invariants and panics on every
+        // run ("bpaf usage BUG: adjacent should start with a required argument")
+        "adjacent_group_without_first_item_panics" => {
+            let g = Spec::Adj(vec![
+                Spec::Pure(1),
+                item(2, Names::long("flag"), Leaf::ReqFlag),
+            ]);
+            let o = OptSpec::plain(Spec::Seq(vec![Spec::wrap(W::Optional { catch: false }, 3, g)]));
+            let p = build_options(&o);
+            let invariants_ok = crate::outcome::guarded(0, || p.check_invariants(false))
+                .0
+                .is_ok();
+            invariants_ok && matches!(crate::outcome::run(&p, &[]), Outcome::Panic(_))
+        }
+        // C05: `--bpaf-complete-rev=xyz` (not a number) was swallowed by the completion scanner:
+        // the item was dropped and the rest of the line accepted
+        "malformed_completion_marker_dropped" => {
+            let o = OptSpec::plain(Spec::Seq(vec![item(1, Names::short('f'), Leaf::Switch)]));
+            let p = build_options(&o);
+            crate::outcome::run(&p, &bytes(&["--bpaf-complete-rev=xyz", "-f"])).is_value()
+        }
         _ => return None,
     })
 }
